@@ -75,9 +75,11 @@ claim('C10', 'proof',
       'predicates, polylines/polygons/meshes/faces/polyfaces and the repaired Arc3D partial-arc '
       'branch are decided by an exact oracle on the real code (all 65x65 angle pairs on a '
       '1/64-turn grid, collections of 1..8, rotated frames).',
-      'Trusted: Lean kernel, py2lean, harness. The vertex-scan loops of the composite classes '
-      'are hand-modelled (Lemmas/MinMax) and tied by the oracle, not generated; bounding.py '
-      'helpers are oracle-only; float rounding outside the model.',
+      'Trusted: Lean kernel, py2lean, harness. The vertex-scan loops (_calculate_min_max of '
+      'the 2D/3D base classes and of Face3D) and the bounding.py helpers are generated kernels; '
+      'the generated scans are proved equal to the hand-proved scan (Props/C10g, C09g), the '
+      'collection box contains every member box and is tight; the Arc3D partial-arc branch is '
+      'oracle-only; float rounding outside the model.',
       'DESIGN.md 4 C10')
 claim('C17', 'proof',
       'Lean 4 theorems on generated parametrisation / split kernels, exact-field loop model, IEEE-double loop model run for every n <= 500; exact oracle on the real code',
